@@ -357,6 +357,16 @@ class Seams:
             return names
         if self.order_seed == "rev":
             return names[::-1]
+        if isinstance(self.order_seed, dict):
+            import math
+
+            k = self.order_seed.get("perm", 0) % (math.factorial(len(names)) if names else 1)
+            pool, out = list(names), []
+            while pool:
+                f = math.factorial(len(pool) - 1)
+                out.append(pool.pop(k // f))
+                k %= f
+            return out
         random.Random(f"{self.order_seed}:{canon(path)}").shuffle(names)
         return names
 
